@@ -8,7 +8,7 @@ FP = {'ev_periodic_start.function_pointer_call.1': ['resched'], 'env_advance.fun
       'env_advance.function_pointer_call.2': ['task_cb', 'unsched'], 'env_child_exit.function_pointer_call.1': ['chld_cb']}
 def ob(name, nev, nmax, **kw):
     o = dict(name=name, src='h_simul.c', defs=['NEV=%d' % nev, 'NMAX=%d' % nmax], units=[], incl=['src/echsd.c'], replay_units='all', replay_extra_units=['src/logger.c'],
-             unwind=max(nev, 5) + 1, solver='cadical', timeout=900, mem_gb=12, object_bits=12, checks=['--bounds-check', '--pointer-check'],
+             unwind=max(nev, 5) + 1, solver='minisat', slice_formula=True, timeout=900, mem_gb=12, object_bits=12, checks=['--bounds-check', '--pointer-check'],
              restrict_fp=FP, replace_calls={'add_chkpnt': 'env_add_chkpnt', 'make_chld': 'env_make_chld', 'free_chld': 'env_free_chld'}, allow_nobody=['snprintf', 'lseek', 'echs_log', 'echs_errlog', 'obint_name', 'dt_strf'],
              enc=['task_cb', 'chld_cb', 'run_task', 'vtodoify', 'make_chld', 'free_chld', 'unsched'],
              sym='both limits and the schedule of %d events' % nev, bounds='2 tasks, %d events, limits 1..%d or unset' % (nev, nmax),
